@@ -7,6 +7,7 @@
 //@function src/engine/core/zone/zone_merger.rs::partial_cmp
 //@function src/engine/core/zone/zone_merger.rs::eq
 //@harness name=heap_item_order kind=bounded bound="context ids of 0..=2 symbolic bytes; cursor index < 2^16" tier=quick timeout=900
+//@harness name=heap_item_order_4_bytes kind=bounded bound="context ids of 0..=4 symbolic bytes" tier=thorough timeout=2400 gate=yes
 //@obligation C04.merge_order.HeapItem.context_is_primary_key : a smaller context id always compares Less (the compacted zones stay sorted by context)
 //@obligation C04.merge_order.HeapItem.tie_break_by_cursor : for equal context ids the lower cursor index (older zone) compares Less and items of different cursors never compare Equal -- BinaryHeap leaves the order of equal items unspecified, so without this a context's rows from two zones interleave
 //@obligation C04.merge_order.HeapItem.consistent_total_order : cmp is antisymmetric, partial_cmp == Some(cmp), eq <=> cmp == Equal
@@ -34,6 +35,31 @@
         let (xy, yx) = (x.cmp(&y), y.cmp(&x));
         kani::cover!(key_eq && ca != cb, "COVER:same_context_two_cursors");
         kani::cover!(key_lt, "COVER:different_contexts");
+        assert!(!key_lt || xy == Ordering::Less, "OBL:C04.merge_order.HeapItem.context_is_primary_key");
+        assert!(!key_eq || (xy == ca.cmp(&cb)), "OBL:C04.merge_order.HeapItem.tie_break_by_cursor");
+        assert!(xy == yx.reverse() && x.partial_cmp(&y) == Some(xy) && (*x == *y) == (xy == Ordering::Equal),
+            "OBL:C04.merge_order.HeapItem.consistent_total_order");
+    }
+
+    fn bytes4() -> Vec<u8> {
+        let len: usize = kani::any();
+        kani::assume(len <= 4);
+        let b: [u8; 4] = kani::any();
+        kani::assume(b[0] < 0x80 && b[1] < 0x80 && b[2] < 0x80 && b[3] < 0x80);
+        b[..len].to_vec()
+    }
+
+    #[kani::proof]
+    #[kani::unwind(6)]
+    fn heap_item_order_4_bytes() {
+        let (ba, bb) = (bytes4(), bytes4());
+        let (ca, cb): (usize, usize) = (kani::any(), kani::any());
+        let key_lt = ba < bb;
+        let key_eq = ba == bb;
+        let x = std::mem::ManuallyDrop::new(HeapItem { context_id: unsafe { String::from_utf8_unchecked(ba) }, cursor_index: ca });
+        let y = std::mem::ManuallyDrop::new(HeapItem { context_id: unsafe { String::from_utf8_unchecked(bb) }, cursor_index: cb });
+        let (xy, yx) = (x.cmp(&y), y.cmp(&x));
+        kani::cover!(key_eq && ca != cb, "COVER:same_context_two_cursors");
         assert!(!key_lt || xy == Ordering::Less, "OBL:C04.merge_order.HeapItem.context_is_primary_key");
         assert!(!key_eq || (xy == ca.cmp(&cb)), "OBL:C04.merge_order.HeapItem.tie_break_by_cursor");
         assert!(xy == yx.reverse() && x.partial_cmp(&y) == Some(xy) && (*x == *y) == (xy == Ordering::Equal),
